@@ -237,3 +237,39 @@ const RULESETS2: [(&str, &str); 2] = [
         }
     }
 }
+
+// ---- a static (background) graph: rules joining it with windows, and rules concluding INTO its component ---------------
+const KB: &str = "http://kb/";
+fn sds_static_at(h: &[u8], now: u64) -> Sds {
+    let mut sds = sds_at(h, now, u64::MAX);
+    sds.static_graphs.insert(KB.to_string(), vec![("x".to_string(), "k".to_string(), "y".to_string()), ("z".to_string(), "k".to_string(), "y".to_string())]);
+    sds
+}
+const RULESETS_STATIC: [(&str, &str); 3] = [
+    ("enrich-the-static-component", "@prefix wa: <http://wa/> .\n@prefix wb: <http://wb/> .\n@prefix kb: <http://kb/> .\n@prefix wo: <http://out/> .\n{ ?s wa:p ?o . ?s kb:k ?o } => { ?s kb:seen ?o }\n{ ?s kb:seen ?o } => { ?s wo:q ?o }\n{ ?s kb:k ?o } => { ?s wo:background ?o }\n"),
+    ("static-into-window", "@prefix wa: <http://wa/> .\n@prefix wb: <http://wb/> .\n@prefix kb: <http://kb/> .\n@prefix wo: <http://out/> .\n{ ?s kb:k ?o } => { ?s wa:q ?o }\n{ ?s wa:q ?o . ?s wb:p ?o } => { ?s wo:both ?o }\n{ ?s wb:p ?o } => { ?s kb:late ?o }\n"),
+    ("chain-through-static", "@prefix wa: <http://wa/> .\n@prefix wb: <http://wb/> .\n@prefix kb: <http://kb/> .\n@prefix wo: <http://out/> .\n{ ?s wb:p ?o } => { ?s kb:a ?o }\n{ ?s kb:a ?o . ?s wa:p ?o } => { ?s kb:b ?o }\n{ ?s kb:b ?o } => { ?s wo:r ?o }\n"),
+];
+#[test] fn w__incremental_sds_plus__static_graphs_equal_from_scratch_and_expiries_lie_in_the_future() {
+    let widths: HashMap<String, u64> = [(A.to_string(), ALPHA_A), (B.to_string(), ALPHA_B)].into();
+    for (name, n3) in RULESETS_STATIC {
+        let dict = Arc::new(RwLock::new(Dictionary::new()));
+        let mut reasoner = Reasoner::new();
+        reasoner.dictionary = Arc::clone(&dict);
+        let (rules, _ctx) = parse_n3_rules_for_sds(n3, &mut reasoner, widths.clone()).expect("rules parse");
+        for h in short_histories(4) {
+            let mut state: SdsWithExpiry = HashMap::new();
+            for now in 0..4 + ALPHA_B + 1 {
+                let sds = sds_static_at(&h, now);
+                state = incremental_sds_plus(&rules, &sds, &state, &dict, now);
+                let comps = all_component_iris(&sds);
+                let incr = decode_view(&sds_with_expiry_to_external(&state, &dict, &comps), &dict);
+                let naive = decode_view(&naive_sds_plus(&rules, &sds, &dict, now), &dict);
+                assert!(incr == naive, "rules {} (static graph <{}> with x k y, z k y): history {:?}, evaluation time {}: incremental materialisation {:?} differs from from-scratch reasoning {:?}", name, KB, h, now, incr, naive);
+                for (comp, facts) in &state { for (_t, expiry) in facts {
+                    assert!(*expiry > now, "rules {}: history {:?}, evaluation time {}: component <{}> keeps a fact whose expiry {} is not in the future", name, h, now, comp, expiry);
+                }}
+            }
+        }
+    }
+}
